@@ -7,6 +7,7 @@ package main
 // change of any session's state, loot files created.
 
 import (
+	"time"
 	"crypto/sha256"
 	"fmt"
 	"os"
@@ -122,7 +123,11 @@ func (w *c05World) line(c *Ctx, in string) {
 		cmd, _ := strconv.ParseUint(parts[2], 10, 32)
 		req, _ := strconv.ParseUint(parts[3], 10, 32)
 		out := guard(func() string {
-			a.AddJobToQueue(agent.Job{Command: uint32(cmd), RequestID: uint32(req), Data: []any{}})
+			data := []any{}
+			if req%2 == 1 { // every other task carries an argument (the listener sizes such tasks one by one at hand-out)
+				data = []any{int32(7)}
+			}
+			a.AddJobToQueue(agent.Job{Command: uint32(cmd), RequestID: uint32(req), Data: data})
 			return "ok"
 		})
 		c.Emit("%s => %s", in, out)
@@ -138,6 +143,62 @@ func (w *c05World) line(c *Ctx, in string) {
 				return "ERR"
 			}
 			a.AddJobToQueue(*job)
+			return "tasks=" + tasksOf(a)
+		})
+		c.Emit("%s => %s", in, out)
+	case "pfplant": // pfplant <id> <x>: the agent opens a reverse port forward to a host that answers, and relays what its client wrote
+		// under request id x; the relay's own jobs (the bytes going back) must not put x on the record of outstanding ids
+		id64, _ := strconv.ParseUint(parts[1], 16, 32)
+		x, _ := strconv.ParseUint(parts[2], 10, 32)
+		a := w.agents[parts[1]]
+		k := w.keys[parts[1]]
+		out := guardT(ms(6000), func() string {
+			t := &pfTarget{port: freePort()}
+			t.start()
+			defer t.stop()
+			i32 := func(v int) fld { return fld{kind: 'i', u: uint64(uint32(v))} }
+			sid := 0x51 + len(a.Tasks)
+			send := func(req uint32, sub uint32, fields ...fld) bool {
+				b := append(be32b(sub), encFields(fields)...)
+				_, ok := handlers.VerifParseAgentRequest(w.ts, demonRequest(uint32(id64), k[0], k[1], []dpkg{{cmd: agent.COMMAND_SOCKET, req: req, body: b}}), "127.0.0.1")
+				return ok
+			}
+			if !send(0, agent.SOCKET_COMMAND_OPEN, i32(sid), i32(0x0100007f), i32(4444), i32(0x0100007f), i32(t.port)) {
+				return "REJECTED"
+			}
+			send(uint32(x), agent.SOCKET_COMMAND_READ, i32(sid), i32(agent.SOCKET_TYPE_CLIENT), i32(1), fld{kind: 'y', data: []byte("ping")})
+			for i := 0; i < 60; i++ { // the host answers and closes
+				t.mu.Lock()
+				n, nc := len(t.got), len(t.conns)
+				t.mu.Unlock()
+				if n >= 4 && nc > 0 {
+					break
+				}
+				time.Sleep(ms(5))
+			}
+			t.mu.Lock()
+			for _, cn := range t.conns {
+				cn.Write([]byte("pong"))
+				cn.Close()
+			}
+			t.mu.Unlock()
+			time.Sleep(ms(80))
+			a.PortFwdClose(sid)
+			w.ts.Take()
+			return "tasks=" + tasksOf(a)
+		})
+		c.Emit("%s => %s", in, out)
+	case "handout": // handout <id>: the agent checks in and gets its queued tasks; the record of outstanding ids is not touched by that
+		id64, _ := strconv.ParseUint(parts[1], 16, 32)
+		a := w.agents[parts[1]]
+		k := w.keys[parts[1]]
+		reqb := demonRequest(uint32(id64), k[0], k[1], []dpkg{{cmd: agent.COMMAND_GET_JOB, nobody: true}})
+		out := guard(func() string {
+			_, ok := handlers.VerifParseAgentRequest(w.ts, reqb, "127.0.0.1")
+			if !ok {
+				return "REJECTED"
+			}
+			w.ts.Take()
 			return "tasks=" + tasksOf(a)
 		})
 		c.Emit("%s => %s", in, out)
@@ -226,8 +287,23 @@ func runC05(c *Ctx) {
 					w.line(c, fmt.Sprintf("cb %s %d %d 1 %s", id, agent.COMMAND_INLINEEXECUTE, req, hx(body(fI(fin)))))
 					continue
 				}
+				if r.Chance(1, 25) && id != ids[2] { // relay traffic under an id of the agent's choosing, then a callback with that id
+					x := r.U32() | 1
+					c.Count("pfplant")
+					w.line(c, fmt.Sprintf("pfplant %s %d", id, x))
+					w.line(c, fmt.Sprintf("cb %s %d %d 1 %s", id, agent.COMMAND_SLEEP, x, hx(body(fI(77), fI(5)))))
+					continue
+				}
 				c.Count("issue")
 				w.line(c, fmt.Sprintf("issue %s %d %d", id, gen.Pick(r, []uint32{11, 15, 92, 12, 21, 2500}), req))
+				if r.Chance(1, 3) { // the task leaves for the agent (a pivot's tasks leave through the first agent's check-in)
+					h := id
+					if id == ids[2] {
+						h = ids[0]
+					}
+					c.Count("handout")
+					w.line(c, "handout "+h)
+				}
 				continue
 			}
 			t := genCallback(r, fileID)
